@@ -14,6 +14,7 @@ import (
 	"fmt"
 	"runtime/debug"
 	"sort"
+	"strings"
 	"sync"
 	"time"
 
@@ -76,7 +77,7 @@ func main() {
 	only := flag.String("only", "", "run only harness A or B (debugging)")
 	onlyCfg := flag.String("cfg", "", "harness A: run only configurations whose name contains this text (debugging)")
 	r := core.Start("C16")
-	debug.SetGCPercent(400)  // every execution builds a fresh app: allocation-heavy, small live heap
+	debug.SetGCPercent(200)  // every execution builds a fresh app: allocation-heavy, small live heap
 	if r.Deadline.IsZero() { // internal budget: a capped run ends with exhaustive=false and exit 0
 		if r.Quick() {
 			r.Deadline = r.Start.Add(55 * time.Second)
@@ -96,6 +97,24 @@ func main() {
 		aInfo = runA(r, col, &samples, *onlyCfg)
 	}
 	col.flush(r)
+	// anti-vacuity: the interesting mechanisms must have been exercised
+	if bInfo != nil && (r.P.Counters["B.judged_reached"] == 0 || r.P.Counters["B.judged_rejected"] == 0) {
+		core.Fatal("vacuous harness B: judged_reached=%d judged_rejected=%d", r.P.Counters["B.judged_reached"], r.P.Counters["B.judged_rejected"])
+	}
+	if aInfo != nil && *onlyCfg == "" && len(r.P.Caps) == 0 {
+		if r.P.Counters["A.agree_pass"] == 0 {
+			core.Fatal("vacuous harness A: no unsafe request with a live token ever reached the handler")
+		}
+		for _, need := range []string{"forbids:consumed", "forbids:expired", "forbids:deleted", "forbids:not-issued", "forbids:token-cookie-mismatch"} {
+			found := false
+			for k := range r.P.Outcomes {
+				found = found || (strings.Contains(k, need) && strings.Contains(k, "reached=false"))
+			}
+			if !found {
+				core.Fatal("vacuous harness A: no rejected request of class %s", need)
+			}
+		}
+	}
 
 	cov := map[string]any{
 		"samples": samples,
